@@ -42,6 +42,8 @@ def run(ctx):
     vlib.tlc_mc(ctx, "MCCluster", ctx.pick("Cluster_mc_snapq.cfg", "Cluster_mc_snap.cfg"), coverage=False, heap="20g", timeout=3000)
     if ctx.thorough:
         vlib.tlc_mc(ctx, "MCCluster", "Cluster_mc_snap5.cfg", coverage=False, heap="24g", timeout=6000)
+        # 3 voters + 1 read replica (non-voter), with a snapshot: 44.7 M states
+        vlib.tlc_mc(ctx, "MCCluster", "Cluster_mc_nv.cfg", coverage=False, heap="24g", timeout=6000)
     vlib.tlc_neg(ctx, "MCCluster", "Cluster_neg_InstallReplacesDb.cfg", expect="DbIsLogPrefix", heap="8g", timeout=3000)
     vlib.tlc_neg(ctx, "MCCluster", "Cluster_neg_SnapAtApplied.cfg", expect="SnapshotIsLogPrefix", heap="8g", timeout=3000)
     tr = os.path.join(ctx.scratch, "cluster.ndjson")
